@@ -355,6 +355,78 @@ def group_fold_leaves(which: int, items: List[int], thr: int) -> bool:
     return (_same(got, exp) and _same(got2, exp)) or fail(got=got, got2=got2, exp=exp)
 
 
+def group_auto_fold(which: int, items: List[int], thr: int) -> bool:
+    """a per-item reduction wrapped in Auto(...) inside a Group (as value spec or as key spec) reduces THAT ITEM -- it does
+    not become an aggregator over the bucket"""
+    from glom import Auto
+    from glom.reduction import Count
+    start()
+    which = concretize(which, 0, 3)
+    if which is OUT:
+        return True
+    t = [[x, x + 1][:(2 if x > thr else 1)] for x in items]          # items are lists of length 1 or 2
+    key = 'af%d' % which
+    if key not in _SPEC_CACHE:
+        _SPEC_CACHE[key] = [Group({len: [Auto(Count())]}), Group({len: [Auto(Sum())]}), Group([Auto(Flatten([T]) if False else Count())]),
+                            Group({Auto(Count()): [T]})][which]
+    spec = _SPEC_CACHE[key]
+    exp = {}
+    if which == 0:
+        for p in t:
+            exp.setdefault(len(p), []).append(len(p))
+    elif which == 1:
+        for p in t:
+            exp.setdefault(len(p), []).append(sum(p))
+    elif which == 2:
+        exp = [len(p) for p in t]
+    else:
+        for p in t:
+            exp.setdefault(len(p), []).append(p)
+    got = glom(t, spec, glom_debug=True)
+    got2 = glom(t, spec, glom_debug=True)
+    reach('auto_fold')
+    return (_same(got, exp) and _same(got2, exp)) or fail(why='Auto(<reduction>) inside a Group reduces each item', got=got, exp=exp, which=which)
+
+
+class _Rec:
+    """records ordered on ONE field only: equal-ranking records stay distinguishable"""
+    def __init__(self, rank, name):
+        self.rank, self.name = rank, name
+
+    def __lt__(self, other):
+        return self.rank < other.rank
+
+    def __gt__(self, other):
+        return self.rank > other.rank
+
+    def __repr__(self):
+        return 'R(%s, %s)' % (self.rank, self.name)
+
+
+def group_ties(which: int, r0: int, r1: int, r2: int, n: int) -> bool:
+    """Min / Max over items that tie: the Python reference (min / max) keeps the FIRST of equal-ranking items; a bucket with a
+    single item never needs a comparison (None, a dict, a complex number are fine)"""
+    from glom.grouping import Min, Max
+    start()
+    which, n = concretize(which, 0, 3), concretize(n, 1, 3)
+    r0, r1, r2 = concretize(r0, 0, 1), concretize(r1, 0, 1), concretize(r2, 0, 1)
+    if OUT in (which, n, r0, r1, r2):
+        return True
+    if which < 2:
+        items = [_Rec(r, i) for i, r in enumerate([r0, r1, r2][:n])]
+        spec, exp = (Group(Min()), min(items)) if which == 0 else (Group(Max()), max(items))
+        got = run(lambda: glom(items, spec, glom_debug=True))
+        reach('ties')
+        return (got.kind == 'ok' and got.value is exp) or fail(why='not the item min()/max() returns (first of the equal-ranking ones)', got=got, exp=exp, items=items)
+    single = [None, {'a': 1}, 1j][r0 + r1]
+    spec = Group({T: Min()}) if which == 2 else Group(Max())
+    got = run(lambda: glom([single] if which == 3 else [0, 1, 2][:n], spec, glom_debug=True))
+    reach('ties')
+    if which == 3:
+        return (got.kind == 'ok' and got.value is single) or fail(why='a single item needs no comparison', got=got, single=single)
+    return (got.kind == 'ok' and got.value == dict((i, i) for i in range(n))) or fail(why='single-item buckets', got=got)
+
+
 def obligations(tier):
     q = tier == 'quick'
     L = 3 if q else 4
@@ -402,4 +474,8 @@ def obligations(tier):
     obs.append(Ob(group_limit, fixed={'k0': 0, 'leaf': 0}, pre='len(items) <= 3 and 0 <= n <= 5', twin='limit_cuts', name='group_limit_k0_l0'))
     obs.append(Ob(group_nested, fixed={'k0': 0, 'leaf': 0}, pre='len(items) <= 3', twin='nested', name='group_nested_k0_l0'))
     obs.append(Ob(group_fold_leaves, fixed={'which': 1}, pre='len(items) <= 3', twin='fold_leaves', name='group_fold_leaves_1'))
+    obs.append(Ob(group_auto_fold, pre='0 <= which <= 3 and len(items) <= 3', name='group_auto_fold', timeout=150))
+    obs.append(Ob(group_auto_fold, pre='0 <= which <= 3 and len(items) <= 3', twin='auto_fold', name='group_auto_fold'))
+    obs.append(Ob(group_ties, pre='0 <= which <= 3 and 0 <= r0 <= 1 and 0 <= r1 <= 1 and 0 <= r2 <= 1 and 1 <= n <= 3', name='group_ties'))
+    obs.append(Ob(group_ties, pre='0 <= which <= 3 and 0 <= r0 <= 1 and 0 <= r1 <= 1 and 0 <= r2 <= 1 and 1 <= n <= 3', twin='ties', name='group_ties'))
     return obs
